@@ -240,7 +240,7 @@ func (st *runState) runPass(ps *pass, nw int) {
 		chunk = 1
 	}
 	if ps.race && nw > 8 && st.p.RaceOnly {
-		nw = 4 // C17 trials are themselves multi-goroutine
+		nw = 6 // C17 trials are themselves multi-goroutine
 	}
 	queue := make(chan span, n/chunk+2)
 	for f := 0; f < n; f += chunk {
